@@ -53,9 +53,11 @@ def vocab():
 
 _ARGS = {}
 ARG_A = ['{}', '{}', '{x}', '{description}', '{name,description}', '{text,first}', '{99999999999}', '{-1}', '{a=}{,b}', '{name=n,description=}{x}', '{k={v}', '{a b}', '{ }', 'x', '{\\foo}', '{%\n}', ' {}', '{german}', '{1}', '{x=y}', '', '{{}}',
-         '{\\x}', '{$}', '{#1}']
+         '{\\x}', '{$}', '{#1}', '{\u00b2}', '{\u2460}', '{\u0663}', '{ 2 }']
 ARG_O = ['', '', '[]', '[x]', '[99999999999]', '[12]', '[0]', '[description]', '[-3]', '[ ]', '[1]', '[german]', '[a=b,c]', '[{]}]', '[', '[\\foo]', '[a=}{]', '[a={b},c=}{d]',
-         '[a=}]', '[=]', '[,=,]', '[a={}]']
+         '[a=}]', '[=]', '[,=,]', '[a={}]',
+         # digits that are no decimal digits, non-ASCII decimal digits, blanks around a number
+         '[\u00b2]', '[\u2460]', '[1\u00b3]', '[\u0663]', '[\uff12]', '[ 2 ]', '[\u2155]', '[\u2082]']
 
 
 def with_args(rnd, item):
